@@ -24,6 +24,9 @@ class _Opaque:
     """An object the models do not look into (no strip / get / ...)."""
     __slots__ = ()
 
+    def __repr__(self):
+        return "<opaque>"
+
 
 def unjv(v):
     if isinstance(v, dict):
